@@ -10,9 +10,12 @@ import (
 	"context"
 	"crypto/x509"
 	"encoding/asn1"
+	"encoding/pem"
 	"errors"
 	"fmt"
 	"net"
+	"os"
+	"path/filepath"
 	"sort"
 	"strings"
 	"time"
@@ -364,7 +367,7 @@ func main() {
 		"signatures, ed25519 CA, windows not covering, TRC shapes nil/zero/no root/CA inside/two TRCs, chain shapes), verified " +
 		"at explicit times on and around every validity boundary; time: Contains/InGracePeriod on boundaries; provider: " +
 		"FetchingProvider.GetChains over the sqlite trust DB (1-3 TRCs with root rotation and grace periods, several " +
-		"chains, scripted fetcher/recurser, AllowInactive); non-trivial = verify cases that pass ValidateChain, provider " +
+		"chains, scripted fetcher/recurser, AllowInactive); loadchains: trust.LoadChains on a temp dir (valid / expired / future / mis-issued / swapped / single / duplicate / other-ISD chains, garbage and empty files) over 1-3 TRCs in all latest-TRC states; non-trivial = verify cases that pass ValidateChain, provider " +
 		"cases that reach activeTRCs"
 	rng := vgen.NewRand(run.Seed)
 	t0 := time.Unix(1900000000, 0).UTC()
@@ -579,7 +582,218 @@ func main() {
 	for i := 0; i < np; i++ {
 		providerCase(run, rng.Fork(uint64(900000+i)))
 	}
+	// 4. trust.LoadChains on a temporary directory (wall clock; margins of at least two hours)
+	nlc := run.Count(60, 1500)
+	for i := 0; i < nlc; i++ {
+		loadChainsCase(run, rng.Fork(uint64(1300000+i)))
+	}
 	run.Finish()
+}
+
+func pemChain(certs ...*x509.Certificate) []byte {
+	var out []byte
+	for _, c := range certs {
+		out = append(out, pem.EncodeToMemory(&pem.Block{Type: "CERTIFICATE", Bytes: c.Raw})...)
+	}
+	return out
+}
+
+func loadChainsCase(run *vgen.Run, r *vgen.Rand) {
+	nTRC := r.Range(1, 3)
+	rotateAt := r.Range(2, 4)
+	if nTRC >= 2 && r.Bool() {
+		rotateAt = nTRC
+	}
+	latestState := []int{0, 1, 2, 3, 4, 5, 6}[r.Intn(7)] // 5 expired, 6 future
+	graceState := r.Intn(4)
+	dropPred := r.Chance(1, 8)
+	type fspec struct {
+		kind    int // 0 chain, 1 garbage, 2 CA first, 3 one certificate, 4 already in the DB, 5 ISD without TRC, 6 empty file
+		rootIdx int
+		state   int // 0 valid now, 1 expired, 2 future
+		mut     int
+	}
+	nf := r.Range(1, 6)
+	files := make([]fspec, nf)
+	for j := range files {
+		f := fspec{kind: []int{0, 0, 0, 0, 0, 1, 2, 3, 4, 5, 6}[r.Intn(11)], rootIdx: r.Intn(2)}
+		switch r.Intn(6) {
+		case 0:
+			f.rootIdx = 2
+		case 1, 2, 3:
+			if nTRC >= rotateAt { // the root of the latest TRC
+				f.rootIdx = 1
+			} else {
+				f.rootIdx = 0
+			}
+		}
+		if r.Chance(1, 5) {
+			f.state = r.Range(1, 2)
+		}
+		if r.Chance(1, 8) {
+			f.mut = r.Range(1, 3)
+		}
+		files[j] = f
+	}
+	if !run.Want() {
+		run.Skip()
+		return
+	}
+	g := pkigen.NewGen()
+	origin := time.Now().UTC().Truncate(time.Second)
+	a := pkigen.NewAbs(g, origin)
+	h := func(n int) time.Time { return origin.Add(time.Duration(n) * time.Hour) }
+	wNB, wNA := h(-24*400), h(24*400)
+	sens := g.MustIssue(g.Tmpl(pkigen.Sensitive, iaCore, "sens", wNB, wNA), g.NewKey(), nil, nil)
+	reg := g.MustIssue(g.Tmpl(pkigen.Regular, iaCore, "reg", wNB, wNA), g.NewKey(), nil, nil)
+	roots := make([]*pkigen.Cert, 3)
+	cas := make([]*pkigen.Cert, 3)
+	for j := range roots {
+		roots[j] = g.MustIssue(g.Tmpl(pkigen.Root, iaCore, fmt.Sprintf("root%d", j), wNB, wNA), g.NewKey(), nil, nil)
+		cas[j] = g.MustIssue(g.Tmpl(pkigen.CA, iaCore, fmt.Sprintf("ca%d", j), h(-24*300), h(24*300)),
+			g.NewKey(), roots[j], nil)
+	}
+	store := newDB()
+	defer store.Close()
+	ctx := context.Background()
+	var trcTerms []string
+	for sidx := 1; sidx <= nTRC; sidx++ {
+		latest := sidx == nTRC
+		nb, na := h(-24*(30-sidx)), h(24*30)
+		grace := time.Duration(0)
+		if latest {
+			switch {
+			case latestState == 5:
+				nb, na = h(-24*20), h(vgen.Pick(r, past...))
+			case latestState == 6:
+				nb, na = h(vgen.Pick(r, future...)), h(24*30)
+			default:
+				switch graceState {
+				case 0:
+					nb, grace = h(-3), 6*time.Hour
+				case 1:
+					nb, grace = h(-24), 48*time.Hour
+				case 2:
+					nb, grace = h(-24), 3*time.Hour
+				}
+			}
+		}
+		root := roots[0]
+		if sidx >= rotateAt {
+			root = roots[1]
+		}
+		spec := pkigen.TRCSpec{ISD: 1, Base: 1, Serial: uint64(sidx), NB: nb, NA: na,
+			Certs: []*pkigen.Cert{sens, reg, root}, Signers: []*pkigen.Cert{sens, reg}}
+		if sidx > 1 {
+			spec.Grace = grace
+			spec.Votes = []int{0}
+		}
+		t, err := pkigen.MakeTRC(spec)
+		if err != nil {
+			panic(err)
+		}
+		if dropPred && sidx == nTRC-1 {
+			continue
+		}
+		if _, err := store.InsertTRC(ctx, t); err != nil {
+			panic(err)
+		}
+		trcTerms = append(trcTerms, a.TRC(&t.TRC, 0, 0))
+	}
+	mk := func(f fspec, ia string) []*x509.Certificate {
+		nb, na := h(-24*10), h(24*10)
+		switch f.state {
+		case 1:
+			nb, na = h(-24*10), h(vgen.Pick(r, past...))
+		case 2:
+			nb, na = h(vgen.Pick(r, future...)), h(24*10)
+		}
+		t := g.Tmpl(pkigen.AS, ia, "as", nb, na)
+		switch f.mut {
+		case 1:
+			t.ExtKeyUsage = []x509.ExtKeyUsage{x509.ExtKeyUsageServerAuth}
+		case 2:
+			t.BasicConstraintsValid, t.IsCA = true, true
+		}
+		c, err := g.Issue(t, g.NewKey(), cas[f.rootIdx], nil, false)
+		if err != nil {
+			panic(err)
+		}
+		if f.mut == 3 {
+			c = pkigen.Corrupt(c)
+		}
+		return []*x509.Certificate{c.X, cas[f.rootIdx].X}
+	}
+	dir, err := os.MkdirTemp("", "verif-c34-")
+	if err != nil {
+		panic(err)
+	}
+	defer os.RemoveAll(dir)
+	var dbTerms, fTerms []string
+	names := map[string]int{}
+	for j, f := range files {
+		name := filepath.Join(dir, fmt.Sprintf("f%02d.pem", j))
+		names[name] = j
+		var raw []byte
+		term := "PKIChain.CFBad"
+		switch f.kind {
+		case 0:
+			ch := mk(f, iaAS)
+			raw, term = pemChain(ch...), "(PKIChain.CFChain "+chainTerm(a, ch)+")"
+		case 1:
+			raw = []byte("-----BEGIN CERTIFICATE-----\nbm90IGEgY2VydA==\n-----END CERTIFICATE-----\n")
+		case 2:
+			ch := mk(f, iaAS)
+			sw := []*x509.Certificate{ch[1], ch[0]}
+			raw, term = pemChain(sw...), "(PKIChain.CFChain "+chainTerm(a, sw)+")"
+		case 3:
+			ch := mk(f, iaAS)[:1]
+			raw, term = pemChain(ch...), "(PKIChain.CFChain "+chainTerm(a, ch)+")"
+		case 4:
+			ch := mk(fspec{rootIdx: f.rootIdx}, iaAS)
+			if ins, err := store.InsertChain(ctx, ch); err == nil && ins {
+				dbTerms = append(dbTerms, chainTerm(a, ch))
+			}
+			raw, term = pemChain(ch...), "(PKIChain.CFChain "+chainTerm(a, ch)+")"
+		case 5:
+			ch := mk(f, "3-ff00:0:311")
+			raw, term = pemChain(ch...), "(PKIChain.CFChain "+chainTerm(a, ch)+")"
+		case 6:
+			raw = []byte("  \n")
+		}
+		if err := os.WriteFile(name, raw, 0o644); err != nil {
+			panic(err)
+		}
+		fTerms = append(fTerms, fmt.Sprintf("(%d, %s)", j, term))
+		run.Tally(fmt.Sprintf("loadchains:file%d", f.kind))
+	}
+	before := time.Now()
+	var res trust.LoadResult
+	var lerr error
+	if pn, msg := vgen.Recover(func() { res, lerr = trust.LoadChains(ctx, dir, store) }); pn {
+		run.Violate(run.Add("loadchains", "(PKIChain.CChain [] false)", "panic", true, msg), "panic: "+msg, nil)
+		return
+	}
+	var loaded, ignored []uint64
+	for _, n := range res.Loaded {
+		loaded = append(loaded, uint64(names[n]))
+	}
+	for n := range res.Ignored {
+		ignored = append(ignored, uint64(names[n]))
+	}
+	sort.Slice(loaded, func(i, j int) bool { return loaded[i] < loaded[j] })
+	sort.Slice(ignored, func(i, j int) bool { return ignored[i] < ignored[j] })
+	after, err := store.Chains(ctx, trust.ChainQuery{})
+	if err != nil {
+		panic(err)
+	}
+	term := vgen.App("PKIChain.CLoadChains", fmt.Sprintf("(%d)%%Z", a.T(before)),
+		fmt.Sprintf("(PKIChain.mkdb %s %s)", vgen.List(trcTerms), vgen.List(dbTerms)), vgen.List(fTerms),
+		vgen.B(lerr != nil), vgen.NList(loaded), vgen.NList(ignored), sortedChains(a, after))
+	run.Tally(fmt.Sprintf("loadchains:err=%v,loaded=%d", lerr != nil, min(len(loaded), 3)))
+	run.Add("loadchains", term, term, true, map[string]any{"nTRC": nTRC, "rotateAt": rotateAt, "latestState": latestState,
+		"graceState": graceState, "dropPred": dropPred, "files": fmt.Sprint(files), "err": lerr != nil,
+		"loaded": loaded, "ignored": ignored})
 }
 
 // window offsets (hours) that keep at least 2 h distance from "now"
